@@ -225,4 +225,23 @@ PROPS = {
                              "random_ill_typed": 3000, "random_well_typed": 4000}},
         "assumptions": COMMON_ASSUMPTIONS + ["the typing rules of harness/src/refsem.rs and the expectation tables of props/c04.rs are the documented rules (reviewed cell by cell against the statement; DESIGN.md 3.3 lists the readings adopted)"],
     },
+    "C19": {
+        "rule": ("A sentinel panic hook is installed first, the catcher's hook on top. programs: EVERY program of "
+                 "length <=5 (thorough <=6) over {enable, disable, enter catch_panic, return, panic(unique message), "
+                 "install hook again, set fallback Continue, query backtrace}, each executed for real (really nested "
+                 "closures) on a fresh thread and followed by a probe panic outside catch_panic; every observation "
+                 "(catch_panic Ok/Err+message, sentinel calls, backtrace content, the hooked nesting level after every "
+                 "step) must equal the abstract model's; two-threads: pairs of programs of length <=3 over the 5 "
+                 "state-changing steps run on two threads under a lock-step scheduler in EVERY step interleaving "
+                 "(quick: 1200 sampled pairs, thorough: all 24336), each thread's observations must equal its solo "
+                 "run; install-race: fresh processes in which 16 threads call panic_catcher_set_hook() behind a barrier "
+                 "with the verif-hooks delay between take_hook and set_hook, after which the hook chain must still "
+                 "reach the sentinel. distinct_nontrivial = distinct programs of length >=2 / pairs / processes."),
+        "quick": [st("rel", timeout=1800)],
+        "thorough": [st("rel", timeout=7200), st("tsan", timeout=7200)],
+        "floors": {"quick": {"evaluations": 40000, "distinct_nontrivial": 30000, "interleavings": 10000,
+                             "programs_with_caught_panic": 300, "children_run": 40}},
+        "assumptions": COMMON_ASSUMPTIONS,
+        "technique": "runtime monitoring: bounded-exhaustive step programs and two-thread interleavings against an abstract state machine; fresh-process install race with injected delay; ThreadSanitizer in the thorough tier",
+    },
 }
